@@ -276,12 +276,17 @@ class PathExec:
             neg = not neg
             c = strip(c["a"])
         pos_name = self.cond_class(c, env)
-        a, b = pos_name, "!" + pos_name
+        if pos_name.startswith("!"):
+            a, b = pos_name, pos_name[1:]
+        else:
+            a, b = pos_name, "!" + pos_name
         return (b, a) if neg else (a, b)
 
     def cond_class(self, c, env):
         if c["k"] == "mcall" and c.get("path") == "tls_records_parser::TlsRecordsParser::defrag_in_progress" and text(c["recv"]) == "self":
             return "in_progress"
+        if c["k"] == "mcall" and c["name"] in ("is_some", "is_none") and is_self_field(c["recv"], "current_record_type") and (c.get("path") or "").startswith("core::option::Option"):
+            return "in_progress" if c["name"] == "is_some" else "!in_progress"
         if c["k"] == "bin" and c["op"] == "||":
             parts = []
             def flat(x):
